@@ -64,7 +64,7 @@ package geom
 //@   prop C04
 //@   mode fp
 //@   requires [nonnil] b != nil && b2 != nil
-//@   requires [ok] boxOK(*b) && boxOK(*b2)
+//@   requires [nonan] noNaNBox(*b) && noNaNBox(*b2)
 //@   ensures [sound] result ==> inBox(*b, goMax(b.Min.X, b2.Min.X), goMax(b.Min.Y, b2.Min.Y)) && inBox(*b2, goMax(b.Min.X, b2.Min.X), goMax(b.Min.Y, b2.Min.Y))
 //@   ensures [complete] (exists x float64, y float64 :: inBox(*b, x, y) && inBox(*b2, x, y)) ==> result
 //@   modifies nothing
@@ -150,7 +150,7 @@ package geom
 //@   prop C04
 //@   mode fp
 //@   requires [nonnil] b != nil
-//@   requires [ok] noNaNBox(*b) && (b2 != nil ==> boxOK(*b2))
+//@   requires [nonan] noNaNBox(*b) && (b2 != nil ==> noNaNBox(*b2))
 //@   ensures [nil_noop] b2 == nil ==> *b == old(*b)
 //@   ensures [join_min] b2 != nil ==> b.Min.X == goMin(old(b.Min.X), old(b2.Min.X)) && b.Min.Y == goMin(old(b.Min.Y), old(b2.Min.Y))
 //@   ensures [join_max] b2 != nil ==> b.Max.X == goMax(old(b.Max.X), old(b2.Max.X)) && b.Max.Y == goMax(old(b.Max.Y), old(b2.Max.Y))
